@@ -183,16 +183,17 @@ Definition lib_ok_b (f : fs) (c : config) (dref : json) (after : option json) (l
   else match after with None => true | Some _ => false end.
 
 (* ---------------------------------------------------------------- the standalone file: flag over file over default *)
-Definition flat_str (d : json) (k : string) : option string := as_str (get [PKey k] d).
-Definition flat_bool (d : json) (k : string) : option bool := as_bool (get [PKey k] d).
+(* field k, the i-th in declaration order: by name in an object, by position in an array *)
+Definition flat_str (d : json) (k : string) (i : nat) : option string := as_str (flat_at d k i).
+Definition flat_bool (d : json) (k : string) (i : nat) : option bool := as_bool (flat_at d k i).
 Definition spec_eff_c (fl : flags) (d : json) : eff :=
-  let v := effective (flag_of (f_verbose fl)) (flat_bool d "verbose") false in
-  {| e_project := effective (f_project fl) (flat_str d "project_path") "./src-tauri";
-     e_output := effective (f_output fl) (flat_str d "output_path") "./src/generated";
-     e_lib := effective (f_validation fl) (flat_str d "validation_library") "none";
+  let v := effective (flag_of (f_verbose fl)) (flat_bool d "verbose" 3) false in
+  {| e_project := effective (f_project fl) (flat_str d "project_path" 0) "./src-tauri";
+     e_output := effective (f_output fl) (flat_str d "output_path" 1) "./src/generated";
+     e_lib := effective (f_validation fl) (flat_str d "validation_library" 2) "none";
      e_verbose := v; e_log_verbose := v;
-     e_visualize := effective (flag_of (f_visualize fl)) (flat_bool d "visualize_deps") false;
-     e_force := effective (flag_of (f_force fl)) (flat_bool d "force") false |}.
+     e_visualize := effective (flag_of (f_visualize fl)) (flat_bool d "visualize_deps" 4) false;
+     e_force := effective (flag_of (f_force fl)) (flat_bool d "force" 11) false |}.
 
 (* generate -c: a missing, unreadable or malformed file is refused; otherwise as generate *)
 Definition generate_c_ok_b (f : fs) (fl : flags) (p : string) (o : cli_obs) : bool :=
@@ -265,14 +266,139 @@ Definition build_ok_b (f : fs) (o : cli_obs) : bool :=
 
 (* ---------------------------------------------------------------- init -o <standalone file> *)
 (* refused before anything is written when the settings are invalid (whatever the shape of
-   the missing project path) or when an existing file would be overwritten without --force;
+   the missing project path) or when an existing file would be overwritten without --force; a
+   refusal is also accepted, with nothing written, when the file cannot be created (its directory
+   does not exist or is a regular file) - the text does not ask for the directory to be created;
    otherwise the file created reads back as exactly the settings given *)
 Definition init_file_ok_b (f : fs) (il : iflags) (force : bool) (o : cli_obs) (after : option json) : bool :=
   if init_invalid f il then match o with ORejected true => true | _ => false end
   else if fs_exists f (or_else (i_output il) "tauri.conf.json") && negb force
        then match o with ORejected true => true | _ => false end
        else match o, after with
-            | ORejected _, _ => false
+            | ORejected u, _ => negb (init_writable f (or_else (i_output il) "tauri.conf.json")) && u
             | _, Some a => flat_roundtrip_b (init_config il) (from_flat a)
             | _, None => false
             end.
+
+(* ---------------------------------------------------------------- Prop-level readings of the oracles *)
+(* (deepening round 7) what each boolean oracle decides, as a proposition; the equivalences
+   are proved in Proofs/C19OracleProofs.v *)
+(* what the model's result looks like to an observer of the real binary: both kinds of
+   refusal are a non-zero exit (the theorems say the file system is then the one the run
+   started from, hence untouched = true) *)
+Definition obs_of_result (r : result) : cli_obs :=
+  match r with
+  | RReject _ _ | RFail _ => ORejected true
+  | RNoCommands _ _ => ONoCommands
+  | RRun e _ => ORan e
+  end.
+
+(* the observable settings up to a leading ./ of the two paths *)
+Definition eff_norm (e : eff) : eff :=
+  {| e_project := norm (e_project e); e_output := norm (e_output e); e_lib := e_lib e;
+     e_verbose := e_verbose e; e_log_verbose := e_log_verbose e; e_visualize := e_visualize e;
+     e_force := e_force e |}.
+
+(* an accepted run: seen with exactly the settings e, or nothing to generate because the
+   project has no commands *)
+Definition ran_ok_P (f : fs) (e : eff) (o : cli_obs) : Prop :=
+  match o with
+  | ORan e' => eff_norm e = eff_norm e'
+  | ONoCommands => fs_get f (e_project e) <> Some NProj
+  | ORejected _ => False
+  end.
+
+(* precedence and refusal, generate *)
+Definition generate_ok_P (f : fs) (fl : flags) (o : cli_obs) : Prop :=
+  if spec_invalid f (spec_eff f fl) then o = ORejected true else ran_ok_P f (spec_eff f fl) o.
+
+(* precedence and refusal, generate -c *)
+Definition generate_c_ok_P (f : fs) (fl : flags) (p : string) (o : cli_obs) : Prop :=
+  match fs_get f p with
+  | Some (NDoc (Some d)) =>
+      match from_flat d with
+      | None => o = ORejected true
+      | Some _ => if spec_invalid f (spec_eff_c fl d) then o = ORejected true else ran_ok_P f (spec_eff_c fl d) o
+      end
+  | _ => o = ORejected true
+  end.
+
+(* preservation: every path of length at most fuel outside the section has the same value
+   (or is absent) in both documents *)
+Definition preserved_P (fuel : nat) (before after : json) : Prop :=
+  forall q, length q <= fuel -> outside_section q = true -> get q before = get q after.
+
+(* nesting depth of a document: no path that leads somewhere is longer *)
+Fixpoint depth (j : json) : nat :=
+  match j with
+  | JArr l => S ((fix go (l : list json) : nat := match l with [] => 0 | v :: r => Nat.max (depth v) (go r) end) l)
+  | JObj kvs => S ((fix go (l : list (string * json)) : nat :=
+                      match l with [] => 0 | (_, v) :: r => Nat.max (depth v) (go r) end) kvs)
+  | _ => 0
+  end.
+
+(* preservation without a bound *)
+Definition preserved_all_P (before after : json) : Prop :=
+  forall q, outside_section q = true -> get q before = get q after.
+
+(* library level *)
+Definition roundtrip_lres_P (f : fs) (c : config) (l : lres) : Prop :=
+  match validate f c with None => l = LOk (normalise c) | Some _ => l = LErr end.
+Definition lib_ok_P (f : fs) (c : config) (dref : json) (after : option json) (l : lres) : Prop :=
+  if saveable dref
+  then exists a, after = Some a /\ preserved_P 40 dref a /\ roundtrip_lres_P f c l
+  else after = None.
+
+(* ---------------------------------------------------------------- the build script with project detection *)
+(* the configuration file of the build script is the one of the detected project root: the
+   section of its tauri.conf.json (tauri.conf.js when only that exists) if there is one, else
+   its typegen.json *)
+Definition build_section_at (f : fs) (tp : option string) : option json :=
+  match tp with
+  | Some p => match fs_get f p with Some (NDoc (Some d)) => get P d | _ => None end
+  | None => None
+  end.
+Definition spec_eff_build_at (f : fs) (tp : option string) (gp : string) : eff :=
+  match build_section_at f tp with
+  | Some tg => spec_eff_sec (Some tg)
+  | None => match fs_get f gp with
+            | Some (NDoc (Some t)) => spec_eff_c no_flags t
+            | _ => spec_eff_sec None
+            end
+  end.
+(* C19-9 at a given root *)
+Definition kf_build_fallback_at (f : fs) (tp : option string) (gp : string) : bool :=
+  match build_section_at f tp with
+  | Some tg => match validate f (config_of_section tg) with Some _ => true | None => false end
+  | None => match fs_get f gp with
+            | Some (NDoc (Some t)) => match from_file f gp with None => true | Some _ => false end
+            | _ => false
+            end
+  end.
+Definition spec_eff_build_detect (f : fs) : eff :=
+  match build_root f with
+  | Some r => spec_eff_build_at f (build_conf_path f r) (r ++ "typegen.json")
+  | None => spec_eff_sec None
+  end.
+Definition kf_build_fallback_detect (f : fs) : bool :=
+  match build_root f with
+  | Some r => kf_build_fallback_at f (build_conf_path f r) (r ++ "typegen.json")
+  | None => false
+  end.
+Definition build_invalid_detect (f : fs) : bool :=
+  match build_root f with
+  | Some _ => kf_build_fallback_detect f || spec_invalid f (spec_eff_build_detect f)
+  | None => false
+  end.
+(* no project detected: nothing may be generated (exit 0 or not); otherwise as build_ok_b *)
+Definition build_ok_detect_b (f : fs) (o : cli_obs) : bool :=
+  match build_root f with
+  | None => match o with ORan _ => false | ORejected u => u | ONoCommands => true end
+  | Some _ =>
+      if build_invalid_detect f then match o with ORejected true => true | _ => false end
+      else match o with
+           | ORan e' => eff_eqb_build (spec_eff_build_detect f) e'
+           | ONoCommands => match fs_get f (e_project (spec_eff_build_detect f)) with Some NProj => false | _ => true end
+           | ORejected _ => false
+           end
+  end.
